@@ -514,11 +514,13 @@ inductive Op where
   | gap (u : Nat)
   deriving Repr
 
+/-- one op of a history; an op that names an unallocated object or a non-unit is a no-op -/
 def step (P : Producers) (s : S) : Op → S
-  | .solve u p => (solveU P (s.h.next + 1) s u p).1
-  | .append q u => appendUnit s q u
-  | .replace q i u => replaceUnit s q i u
-  | .gap u => setGap s u
+  | .solve u p =>
+    if u < s.h.next ∧ p < s.h.next ∧ (s.h.obj u).kind = .unit then (solveU P (s.h.next + 1) s u p).1 else s
+  | .append q u => if u < s.h.next ∧ (s.h.obj u).kind = .unit then appendUnit s q u else s
+  | .replace q i u => if u < s.h.next ∧ (s.h.obj u).kind = .unit then replaceUnit s q i u else s
+  | .gap u => if u < s.h.next ∧ (s.h.obj u).kind = .unit then setGap s u else s
 
 def run (P : Producers) (s : S) (ops : List Op) : S := ops.foldl (step P) s
 
